@@ -5,7 +5,7 @@ or subsumes_term/2 on generated argument terms (shared variables, atoms, small/b
 integers, floats, rationals, strings, partial strings, lists, partial/improper lists, compounds)
 in a generated instantiation mode, including malformed arguments.
 
-Implementation:   Prelude, catch((Goal, S = ok), error(E,_), S = err(E)), R = r(S, V0, …, Vn).
+Implementation:   Prelude, catch((Goal, S = ok), error(E,_), S = err(E)), R0 = r(S, V0, …, Vn), copy_term(R0, R).
 Model (drv_C23):  the mirrored builtin (Model/TermOps.lean) on the same argument terms, printing the
                   same report term r(S, V0σ, …, Vnσ).
 Judge: both report terms must be equal up to a bijective renaming of variables (success: the answer
@@ -739,6 +739,12 @@ def directed():
         ("copy", [s('f', s('g', X, Y), Y, X), W], [("V0", ('lst', [b], Z)), ("V1", s('h', Z, Z))]),
         ("tvars", [s('f', ('lst', [a], X), X, Y), W], [("V0", ('lst', [Z, Y], None))]),
         ("arg", [('i', 2), ('lst', [a], X), W], [("V0", ('lst', [b], None))]),
+        ("arg", [('i', 1), ('str', "abc", None), X], [("V0", ('lst', [b], None))]),
+        ("arg", [('i', 1), ('str', "abc", None), X], [("V0", a)]),
+        ("arg", [('i', 1), ('str', "abc", None), X], [("V0", b)]),
+        ("arg", [('i', 1), ('str', "abc", Y), X], [("V0", s('g', Z))]),
+        ("arg", [('i', 1), ('str', "abc", None), ('str', "abc", None)]),
+        ("arg", [('i', 2), ('str', "abc", None), X], [("V0", ('str', "bc", None))]),
         ("univ", [('lst', [a], X), W], [("V0", ('lst', [b], None))]),
         ("copy", [s('f', ('sh', 'S1', ('str', "ab", X)), ('sh', 'S1', ('str', "ab", X)), X), W]),
         ("copy", [s('f', ('sh', 'S1', s('g', X, Y)), ('sh', 'S1', s('g', X, Y)), ('lst', [('sh', 'S1', s('g', X, Y))], X)), W]),
@@ -846,7 +852,10 @@ def make_case(cid, op, args, late=()):
         texts = names
     goal = GOAL[op] % tuple(texts)
     rterm = "r(S%s)" % "".join("," + v for v in vs)
-    q = ", ".join(rd.prelude + pre + ["catch((%s, S = ok), error(E,_), S = err(E))" % goal, "R = %s" % rterm]) + "."
+    # the report term is printed from a copy: the answer printer shows a bound variable that is
+    # reached a second time inside a list cell as unbound (notes/findings-misc.md, not C23)
+    q = ", ".join(rd.prelude + pre + ["catch((%s, S = ok), error(E,_), S = err(E))" % goal, "R0 = %s" % rterm,
+                                     "copy_term(R0, R)"]) + "."
     rcanon = "'r'(%s)" % ",".join(vs) if vs else "'r'"
     return {
         "id": cid, "op": op, "prolog": q, "args": [canon(t) for t in trees], "size": sum(tree_size(t) for t in trees),
@@ -866,6 +875,16 @@ def classify_arg_bign(c):
     n, t = c["args"][0], c["args"][1]
     compound = t != "[]" and (t.startswith('"') or t.startswith("[") or (t.startswith("'") and t.endswith(")")))
     return re.fullmatch(r"\d+", n) is not None and int(n) >= 2 ** 64 and not compound
+
+
+def classify_arg_pstr_bound(c):
+    """finding C23-2: arg(1, T, X) with T a (partial) string and X bound (reached through a variable
+    reference): unify_char is handed the undereferenced register and binds a bound variable."""
+    if c["op"] != "arg" or c["args"][0] != "1":
+        return False
+    t = parse_canon(c["args"][1])
+    x = parse_canon(c["args"][2])
+    return t[0] == 's' and t[1] == '.' and len(t[2]) == 2 and is_char(t[2][0]) and x[0] != 'v'
 
 
 def judge(c, impl, model):
@@ -891,6 +910,9 @@ def judge(c, impl, model):
                 return "skipped-unprintable", []
     if iv is None:
         return "problem", [("disagreement", {"op": c["op"], "problem": "no-answer"}, "no answer from the implementation")]
+    if iv.startswith("panic(internal error: entered unreachable code") and classify_arg_pstr_bound(c):
+        return "problem", [("violation", {"op": "arg", "defect": "pstr-first-char-against-bound-variable-panics"},
+                            "%s -> %s (model: %s)" % (c["prolog"], iv[:200], mv[:200]))]
     if iv.startswith("panic") or iv.startswith("timeout"):
         return "problem", [("violation", {"op": c["op"], "problem": iv.split("(")[0], "args": " ".join(c["args"])[:160]},
                             "%s -> %s (model: %s)" % (c["prolog"], iv[:200], mv[:200]))]
